@@ -1,6 +1,9 @@
 """Simulator-owned seams.  Nothing in /repo is edited: every seam is an instance attribute, a module attribute looked
 up at call time, a constructor parameter, or one class-level patch of scikit-learn's BaseOptimizer.update_params that is
 active only inside a `World`."""
+import os
+import sys
+
 import numpy as np
 
 from .core import SimFault, SimBudget, HarnessError, fhex
@@ -462,3 +465,54 @@ class ModelHarness:
             m = np.where((X_full == row).all(axis=1))[0]
             ids.append(int(m[0]) if len(m) == 1 else (-1 if len(m) == 0 else -2 - int(m[0])))
         return ids
+
+
+class LineCrash:
+    """Crash at an ARBITRARY point of a library call: raises SimFault when the k-th source line of the library (files under
+    gemclus/, tests excluded; the compiled extension has no lines) is about to execute - what a KeyboardInterrupt or a
+    MemoryError does to a running fit.  Only durable state survives: whatever the call had already written to the object.
+    The count of executed lines up to a point is a function of the record alone, so the crash point replays exactly."""
+
+    def __init__(self, at, log=None, result=None):
+        import gemclus
+        self.root = os.path.dirname(os.path.realpath(gemclus.__file__)) + os.sep
+        self.tests = os.sep + "tests" + os.sep
+        self.at = int(at)
+        self.count = 0
+        self.fired = None
+        self.log = log
+        self.result = result
+        self._known = {}
+
+    def _wanted(self, filename):
+        w = self._known.get(filename)
+        if w is None:
+            real = os.path.realpath(filename)
+            w = self._known[filename] = real.startswith(self.root) and self.tests not in real
+        return w
+
+    def _global(self, frame, event, arg):
+        if self.fired is not None or not self._wanted(frame.f_code.co_filename):
+            return None
+        return self._local
+
+    def _local(self, frame, event, arg):
+        if event == "line" and self.fired is None:
+            self.count += 1
+            if self.count >= self.at:
+                self.fired = (os.path.basename(frame.f_code.co_filename), frame.f_code.co_name, frame.f_lineno)
+                if self.log is not None:
+                    self.log.emit("FAULT", kind="line_crash", at=self.at, function=frame.f_code.co_name)
+                if self.result is not None:
+                    self.result.fault("line_crash")
+                raise SimFault("line_crash")
+        return self._local
+
+    def __enter__(self):
+        self.prev = sys.gettrace()
+        sys.settrace(self._global)
+        return self
+
+    def __exit__(self, *exc):
+        sys.settrace(self.prev)
+        return False
